@@ -32,7 +32,7 @@ macro_rules! report {
 }
 
 const MODELS_QUICK: u64 = 25;
-const MODELS_THOROUGH: u64 = 2000;
+const MODELS_THOROUGH: u64 = 10000;
 
 fn load(env: &Env, text: &str) -> Result<Result<v1::Instance, String>, PanicInfo> {
     std::fs::create_dir_all(&env.scratch).expect("harness: scratch directory");
@@ -394,7 +394,7 @@ impl Property for C19 {
     fn min_nontrivial(&self, tier: Tier) -> u64 {
         match tier {
             Tier::Quick => 700,
-            Tier::Thorough => 55_000,
+            Tier::Thorough => 270_000,
         }
     }
     fn rule(&self) -> &'static str {
